@@ -107,7 +107,7 @@ ULevelFields(lvl) ==
   IF t.kind = "pos" THEN named \o [i \in DOMAIN t.items |-> UPosMeta(t.items[i])]
   ELSE IF t.kind = "cmd"
   THEN LET ep == IF UHas(t, "else_pos") THEN t.else_pos ELSE <<>>
-           c0 == UChoice([i \in DOMAIN t.cmds |-> UCmdItem] \o [i \in DOMAIN ep |-> UPosMeta(ep[i])])
+           c0 == UChoice([i \in DOMAIN t.cmds |-> IF UFlag(t.cmds[i], "hidden") THEN USkip ELSE UCmdItem] \o [i \in DOMAIN ep |-> UPosMeta(ep[i])])
            c  == IF UFlag(t, "optional") THEN UOpt(c0) ELSE c0 IN
        IF UStr(t, "grouped") # "" /\ named # <<>>
        THEN SubSeq(named, 1, Len(named) - 1) \o <<UAnd(<<named[Len(named)], c>>)>>
